@@ -25,9 +25,15 @@ ASSUMPTIONS = [
     "hash gates follow the default policy between requests",
 ]
 
+# a step whose input nothing declares (so that a later step can try to build it)
+UNDECL_STEP = opx.step_req("s4", ["u"], ["v"])
+
 LATE_FAILURES = [
     # collision on the second path, cycle closed by the last input, glob match on the second output
     opx.step_req("s2", ["a"], ["x1", "b"]),
+    # a cycle closed by the last OUTPUT, after the step node, its input edge and its first output
+    # were written: s4 reads u and writes v, s5 reads v and wants to write w and u
+    opx.step_req("s5", ["v"], ["w", "u"]),
     opx.step_req("s2", ["a", "c"], ["a2"]),
     opx.step_req("s3", [], ["z", "d/zz"]),
     ("amend_step", "$job", ["a", "d/"], [], [], []),
@@ -83,7 +89,7 @@ class Check:
 def jobs(tier, seed):
     out = []
     depth = 2 if tier == "quick" else 3
-    m = opx.Machine(menu=CORE_MENU + LATE_FAILURES + opx.MENU_MALFORMED, targets_menu=((),), exits=["ok", "fail"])
+    m = opx.Machine(menu=CORE_MENU + [UNDECL_STEP] + LATE_FAILURES + opx.MENU_MALFORMED, targets_menu=((),), exits=["ok", "fail"])
     st = m.replay([("start", ())])
     for ev in st["enabled"]:
         out.append({"part": "a", "root": [("start", ()), ev], "depth": depth})
@@ -105,7 +111,7 @@ def jobs(tier, seed):
 
 def run_a(spec, acc):
     check = Check(acc)
-    m = opx.Machine(menu=CORE_MENU + LATE_FAILURES + opx.MENU_MALFORMED, check=check, targets_menu=((),),
+    m = opx.Machine(menu=CORE_MENU + [UNDECL_STEP] + LATE_FAILURES + opx.MENU_MALFORMED, check=check, targets_menu=((),),
                     exits=["ok", "fail"])
     m.fs_core = True
     orig = m.replay
